@@ -73,20 +73,53 @@ Fixpoint zip4 (a b c d : list N) : list entry :=
   | _, _, _, _ => []
   end.
 
+(* the columns are consumed in the order of the code: ids are summed while they are read, offsets
+   are resolved while they are read (an arithmetic overflow there precedes a later end of input) *)
+Fixpoint read_ids (fuel : nat) (count last : N) (l : bytes) : outcome (list N * bytes) :=
+  if count =? 0 then Ok ([], l) else
+  match fuel with
+  | O => Err
+  | S f => match read_varint l with
+           | None => Err
+           | Some (d, r) =>
+               let s := last + d in
+               if two64 <=? s then Overflow else
+               obind (read_ids f (count - 1) s r) (fun p => Ok (s :: fst p, snd p))
+           end
+  end.
+
+Fixpoint read_offsets (fuel : nat) (prev : option (N * N)) (lens : list N) (l : bytes) : outcome (list N) :=
+  match lens with
+  | [] => Ok []
+  | len :: lr =>
+      match fuel with
+      | O => Err
+      | S f => match read_varint l with
+               | None => Err
+               | Some (tmp, r) =>
+                   let o := match prev with
+                            | Some (po, pl) => if tmp =? 0 then (if two64 <=? po + pl then Overflow else Ok (po + pl))
+                                               else Ok (tmp - 1)
+                            | None => if tmp =? 0 then Overflow else Ok (tmp - 1)
+                            end in
+                   obind o (fun off => omap (cons off) (read_offsets f (Some (off, len)) lr r))
+               end
+      end
+  end.
+
 Definition deserialize (l : bytes) : outcome (list entry) :=
   match read_varint l with
   | None => Err
   | Some (count, r0) =>
       if 10000000000 <? count then Err else
       let fuel := length l in
-      match read_n fuel count r0 with None => Err | Some (ds, r1) =>
+      obind (read_ids fuel count 0 r0) (fun p1 =>
+      let '(ids, r1) := p1 in
       match read_n fuel count r1 with None => Err | Some (runs, r2) =>
       match read_n fuel count r2 with None => Err | Some (lens, r3) =>
-      match read_n fuel count r3 with None => Err | Some (tmps, _) =>
-        obind (prefix_sums 0 ds) (fun ids =>
-        obind (dec_offsets None lens tmps) (fun offs =>
-        Ok (zip4 ids offs lens (map (fun r => r mod 4294967296) runs))))   (* as u32 *)
-      end end end end
+      obind (read_offsets fuel None lens r3) (fun offs =>
+      Ok (zip4 ids offs lens (map (fun r => r mod 4294967296) runs)))   (* as u32 *)
+      end end)
   end.
 
 (* ---------- find_tile ---------- *)
